@@ -25,7 +25,10 @@ NFIELDS = 9
 
 # ---------------------------------------------------------------- generator
 def gen_val(rng, allow_cont=True):
-    k = rng.choice(["none", "int", "bool", "str", "float", "cont", "cont"] if allow_cont else ["none", "int", "bool", "str"])
+    k = rng.choice(["none", "int", "bool", "str", "float", "cont", "cont", "nest"] if allow_cont else ["none", "int", "bool", "str"])
+    if k == "nest":
+        # a list / dict whose elements are lists (mutable values inside a mutable value): a push must reset the field to a DEEP copy
+        return ["nest", rng.choice([0, 1]), [sorted(rng.sample(range(1, 9), rng.choice([0, 1, 2]))) for _ in range(rng.choice([1, 2, 3]))]]
     if k == "none":
         return ["none"]
     if k == "int":
@@ -136,7 +139,10 @@ def gen_ops(rng, decl, n):
             ops.append(["pop", s])
         elif r < 0.65 and fields:
             g = rng.choice(sorted(fields))
-            if fields[g][0] == "cont" and rng.random() < 0.8:
+            if fields[g][0] == "nest" and rng.random() < 0.85:
+                z[0] += 1
+                ops.append(["appendin", g, rng.randrange(0, len(fields[g][2]) + (1 if rng.random() < 0.1 else 0)), z[0]])
+            elif fields[g][0] == "cont" and rng.random() < 0.8:
                 z[0] += 1
                 ops.append(["append", g, z[0]])
             else:
@@ -184,6 +190,8 @@ def coq_val(v):
         return "(VFloat %d%%N)" % v[1]
     if t == "cont":
         return "(VCont %d%%N [%s])" % (v[1], "; ".join("(%d)%%Z" % z for z in v[2]))
+    if t == "nest":
+        return "(VNest %d%%N [%s])" % (v[1], "; ".join("[%s]" % "; ".join("(%d)%%Z" % z for z in l) for l in v[2]))
     raise ValueError(v)
 
 
@@ -204,6 +212,8 @@ def coq_op(o):
         return "OSet %s %s" % (fN(o[1]), coq_val(o[2]))
     if k == "append":
         return "OAppend %s (%d)%%Z" % (fN(o[1]), o[2])
+    if k == "appendin":
+        return "OAppendIn %s %d%%nat (%d)%%Z" % (fN(o[1]), o[2], o[3])
     if k == "read":
         return "ORead %s %s (%d)%%Z" % (fN(o[1]), fN(o[2]), o[3])
     if k == "len":
@@ -268,6 +278,8 @@ def parse_one(v):
                 return ["float", v[1]]
             if tag == "VCont":
                 return ["cont", v[1], list(v[2])]
+            if tag == "VNest":
+                return ["nest", v[1], [list(l) for l in v[2]]]
             if tag == "VStack":
                 ns = names[name]
                 return ["stack", [{n: conv_val(n, x) for n, x in zip(ns, fr)} for fr in v[1]]]
@@ -318,6 +330,8 @@ class Ref:
         v = self.init[f]
         if v[0] == "cont":
             return ["cont", v[1], list(v[2])]  # a fresh copy of the container it was declared with
+        if v[0] == "nest":
+            return ["nest", v[1], [list(l) for l in v[2]]]      # ... a deep one
         if v[0] == "stack":
             return ["stack", []]               # a fresh empty stack
         return copy.deepcopy(v)
@@ -346,6 +360,14 @@ class Ref:
             if c is None or c[0] != "cont" or c[1] == 3:
                 return ["ErrAttr"]
             c[2].append(o[2])
+            return ["done"]
+        if k == "appendin":
+            c = m.get(o[1])
+            if c is None or c[0] != "nest":
+                return ["ErrAttr"]
+            if o[2] >= len(c[2]):
+                return ["ErrIndex"]
+            c[2][o[2]].append(o[3])
             return ["done"]
         if k == "read":
             r = self.reg[o[1]]
